@@ -1,5 +1,6 @@
 // E1 tree harness binary: scenario families lin (C01/C15), scanc (C04), phantom (C06), struct (C08), locks (C09).
 #include "tree_harness.h"
+#include "ddl_harness.h"
 
 using namespace th;
 
@@ -10,6 +11,7 @@ static std::string kind_name(OpKind k) {
         case UPUT: return "uput";
         case REMOVE: return "remove";
         case SCAN: return "scan";
+        case ISCAN: return "iscan";
     }
     return "?";
 }
@@ -44,7 +46,7 @@ static void add(std::vector<hm::Scenario>& out, const std::string& family, const
                 const std::vector<std::vector<Op>>& progs, unsigned oracles, bool quick, int bq, int bt) {
     hm::Scenario sc;
     sc.name = family + "/" + sh.name + "/" + prog_name(progs);
-    sc.sigclass = family + ":" + sigclass_of(progs);
+    sc.sigclass = family + ":" + (family == "iscanc" ? sh.name + ":" : std::string()) + sigclass_of(progs);
     sc.quick = quick;
     sc.bound_quick = bq;
     sc.bound_thorough = bt;
@@ -219,6 +221,38 @@ static void family_scanc(std::vector<hm::Scenario>& out, unsigned oracles, bool 
     }
 }
 
+// cursor API under concurrent writers (C10, second sentence)
+static void family_iscanc(std::vector<hm::Scenario>& out, unsigned oracles) {
+    auto shapes = ykc::all_shapes();
+    const std::vector<std::string> use = {"B3", "B15", "I3_8_1_8", "I2_8_15", "L1one", "L1_3", "L1full", "L1I2_1_8", "L2", "I2_1_8"};
+    const std::set<std::string> quick_shapes = {"B15", "I3_8_1_8", "L1one", "L1full", "L1I2_1_8", "L1_3"};
+    for (auto& sn : use) {
+        const ykc::Shape* sh = ykc::find_shape(shapes, sn);
+        auto wops = writer_ops(*sh);
+        std::vector<Op> cursors;
+        for (int r2l = 0; r2l < 2; ++r2l) {
+            for (int early = 0; early < 2; ++early) {
+                Op c = mkscan("", scan_endpoint::INF, "", scan_endpoint::INF, 0, r2l != 0, true);
+                c.kind = ISCAN;
+                c.early = early != 0;
+                cursors.push_back(c);
+            }
+        }
+        for (std::size_t ci = 0; ci < cursors.size(); ++ci) {
+            for (auto& w : wops) {
+                bool quick = quick_shapes.count(sn) != 0 && ci == 0;
+                add(out, "iscanc", *sh, {{cursors[ci]}, {w}}, oracles, quick, 2, 3);
+            }
+        }
+        for (std::size_t a = 0; a < wops.size(); ++a) {
+            for (std::size_t b = a + 1; b < wops.size(); ++b) {
+                if (wops[a].key == wops[b].key) continue;
+                add(out, "iscanc", *sh, {{cursors[0]}, {wops[a], wops[b]}}, oracles, false, 2, 2);
+            }
+        }
+    }
+}
+
 // structural writers only: splits, node removal, collapse, layer root replacement racing each other
 static void family_struct(std::vector<hm::Scenario>& out, unsigned oracles, const char* fam, bool with_reader) {
     auto shapes = ykc::all_shapes();
@@ -306,6 +340,8 @@ int main(int argc, char** argv) {
     if (family == "scanc") family_scanc(sc, oracles, false, "scanc");
     if (family == "phantom") family_scanc(sc, oracles, true, "phantom");
     if (family == "struct") family_struct(sc, oracles, "struct", false);
+    if (family == "ddl") ddl::scenarios(sc);
+    if (family == "iscanc") family_iscanc(sc, oracles);
     if (family == "locks") {
         family_struct(sc, oracles, "locks", true);
         family_alone(sc, oracles, "alone");
